@@ -14,6 +14,16 @@
 // The classification of a request (carries a configured secret / standard form
 // / API path) is computed from the request bytes and the configuration by the
 // reference in oracle.go — never from the labels the enumerator attached.
+//
+// Family B (real.go, paths.go) adds the path dimension: every route of the
+// embedded swagger spec x every spelling of a small grammar (slashes, `.` and
+// `..` segments out of every other place of the URL space, percent-encodings,
+// case, ;params, early ?, absolute-form) x methods x a none/wrong/right
+// credential alphabet x configuration, against the REAL assembled server
+// (frontend.New + server.Serve: real chain, real go-swagger router and
+// operations), with "reached an API handler" observed directly in front of the
+// operation the router dispatched to, and "is this spelling an API route"
+// decided by the same server with no auth configured.
 package main
 
 import (
@@ -25,6 +35,7 @@ import (
 	"os/signal"
 	"strings"
 	"syscall"
+	"time"
 
 	"github.com/ErdemOzgen/blackdagger/internal/frontend/middleware"
 	"github.com/ErdemOzgen/blackdagger/internal/zzverif/venv"
@@ -326,6 +337,7 @@ func main() {
 	}
 
 	fam := family(fl.Thorough())
+	tA := time.Now()
 	block := 0
 	var maxHdrs int64
 	for _, cfg := range fam.configs {
@@ -349,7 +361,11 @@ func main() {
 			}
 		}
 	}
+	blocksA := block
+	tB := time.Now()
+	res.Count("A:wall_ms(sum over shards)", time.Since(tA).Milliseconds())
 	c.runReal(fam, &block)
+	res.Count("B:wall_ms(sum over shards)", time.Since(tB).Milliseconds())
 	res.Bounds["configurations"] = len(fam.configs)
 	res.Bounds["headers_per_configuration_max"] = maxHdrs
 	res.Bounds["basic_secrets"] = fmt.Sprint(fam.basics)
@@ -359,12 +375,19 @@ func main() {
 	res.Bounds["paths"] = fmt.Sprintf("%q", fam.paths)
 	res.Bounds["schemes"] = fmt.Sprintf("%q", fam.schemes)
 	res.Bounds["separators"] = fmt.Sprintf("%q", fam.seps)
-	res.Bounds["blocks(config x method x target)"] = block
-	res.Rule = "full product configuration x base path x method x request-target x Authorization header (absent | scheme x separator x credential variant, de-duplicated by header bytes per configuration), every member served by the real chain middleware.Setup + SetupGlobalMiddleware with sentinel handlers; distinct = distinct (configuration, method, target, header bytes); non-trivial = auth configured, Authorization header present, API path"
+	res.Bounds["blocks(config x method x target)"] = blocksA
+	res.Bounds["B:blocks(base path x target)"] = block - blocksA
+	res.Rule = "family A: full product configuration x base path x method x request-target x Authorization header (absent | scheme x separator x credential variant, de-duplicated by header bytes per configuration), every member served by the real chain middleware.Setup + SetupGlobalMiddleware with sentinel handlers; distinct = distinct (configuration, method, target, header bytes); non-trivial = auth configured, Authorization header present, API path. " +
+		"family B: full product (configuration from the core secrets) x base path x method x (route of the embedded spec x spelling of the path grammar, de-duplicated by target bytes) x credential alphabet (absent | wrong / right / other-scheme / bare, per scheme), every member written as raw HTTP/1.1 bytes, parsed by net/http's request parser and served by the handler of the real running server (frontend.New + server.Serve); the absent-header and standard-Basic members under the first none and first both configuration additionally over the server's TCP listener; non-trivial = auth configured, spelling other than plain, resolved to an operation by the router"
 	res.Assume("wiring: middleware.Setup(Options{Handler: static sentinel, BasePath, Logger, AuthToken, AuthBasic}) + middleware.SetupGlobalMiddleware(api sentinel), as server.Serve / configureAPI do; requests are handed to the handler by httptest (no TCP listener, so net/http's wire-level header trimming is not in the loop)")
 	res.Assume("'API path' = after removing the configured base path the URL path is /api or starts with /api/ (the swagger base path is /api/v1); for other paths (static routes, paths outside the base path, the / redirect) only 'the API handler is not reached without a configured secret' is asserted")
 	res.Assume("a request 'presents' a secret when a whitespace-delimited field, or the remainder after any whitespace, of an Authorization value equals the configured token, or equals user:password in plain or any base64 alphabet; only `Basic <std-base64(user:password)>` and `Bearer <token>` count as standard form; everything else that presents a correct secret is don't-care")
 	res.Assume("an empty configured token, or one outside the RFC 6750 b64token alphabet (e.g. containing a space), has no standard presentation: only 'no bypass' is asserted for it")
+	res.Assume("family B: the server is frontend.New(config) started by server.Serve on 127.0.0.1:0 with a real client over an empty scratch installation; an overlay file in package server (go_inpkg/c17) only sets the base-path field New would set from NewServerArgs.BasePath (frontend.New forwards no base path), appends one more server.Handler (the recorder) and reads the running handler / port")
+	res.Assume("family B: 'reaches an API handler' = the go-swagger router dispatched the request to an operation: a recorder wrapped around every operation of the spec with api.AddMiddlewareFor (behind the route lookup, in front of bind / validate / handle) ran; it then calls the real operation. For OPTIONS (answered by the CORS layer behind authentication, never routed): the CORS answer, for targets that some method resolves to an operation")
+	res.Assume("family B: 'the spelling is an API route' is decided by the real server itself: the same bytes under the configuration without auth and the same base path dispatch an operation; 401 is demanded only for those, reaching an operation without a secret is a violation for every spelling")
+	res.Assume("family B: bulk delivery hands the request parsed by http.ReadRequest (the server's own parser) to the running server's handler; the over-TCP sub-family must give the same status and dispatch (else CHECK-ERROR)")
+	res.Assume("family B: a violation that the plain spelling of the route the request lands on shows as well (same configuration, method, header) is reported under path-class=plain")
 	res.Assume("OPTIONS: the CORS layer behind the auth layers answers every OPTIONS request itself (200 + Access-Control-Allow-Origin) also with no auth configured; that answer is what counts as 'reached' for OPTIONS")
 	res.Write(fl.Out)
 	os.RemoveAll(fl.Work)
